@@ -6,6 +6,7 @@ import ast
 import math
 
 from ..cfg import handler_names
+from ..alpha import Loc
 from ..const import UNKNOWN, Folder
 from ..flow import flat_guards, parent_map
 from ..model import FuncInfo, Model, dotted, norm, walk_no_nested, walk_with_lambdas
@@ -275,12 +276,16 @@ def check(model: Model, run: Run) -> None:
     for fi in parsers:
         calls = [c for c in walk_no_nested(fi.node) if isinstance(c, ast.Call) and model.call_matches(fi.module, c, 'Labels.make_labels')]
         for c in calls:
-            if not c.args or not isinstance(c.args[0], ast.Name):
+            if not c.args or not isinstance(c.args[0], (ast.Name, ast.List)):
                 continue
-            lst = c.args[0].id
+            lst = c.args[0].id if isinstance(c.args[0], ast.Name) else None
             bd = Bounds(model, folder, fi)
-            for app in walk_no_nested(fi.node):
-                if isinstance(app, ast.Call) and isinstance(app.func, ast.Attribute) and app.func.attr == 'append' and dotted(app.func.value) == lst and app.args:
+            # the list handed over: a local that is appended to, or a literal whose elements are the labels
+            sites = [app for app in walk_no_nested(fi.node) if lst is not None and isinstance(app, ast.Call) and isinstance(app.func, ast.Attribute) and app.func.attr == 'append' and dotted(app.func.value) == lst and app.args]
+            if isinstance(c.args[0], ast.List):
+                sites = [ast.copy_location(ast.Call(func=ast.Name(id='append', ctx=ast.Load()), args=[e], keywords=[]), e) for e in c.args[0].elts]
+            for app in sites:
+                if True:
                     n_lab += 1
                     pm = parent_map(fi.node)
                     st = app
@@ -367,6 +372,90 @@ def check(model: Model, run: Run) -> None:
             'parsed: `route 10.0.0.0/24 med 5;` (no next-hop) is accepted by reload() and raises ValueError("announce requires '
             'nexthop") only when the UPDATE is built for the session',
         )
+    # every handler that installs announced routes runs the shared check on each of them first
+    n_inst = 0
+    for f in sorted(model.funcs.values(), key=lambda f: f.qualname):
+        if not f.module.rel.startswith('exabgp/reactor/api/command/'):
+            continue
+        inst = model.calls_to(f.module, f.node, '_Configuration.announce_route', '_Configuration.announce_route_indexed')
+        if not inst:
+            continue
+        run.analysed(f)
+        pm4 = parent_map(f.node)
+
+        def loop_of(x: ast.AST):  # noqa: ANN202
+            cur = x
+            while cur is not None and cur is not f.node:
+                cur = pm4.get(id(cur))
+                if isinstance(cur, (ast.For, ast.AsyncFor)):
+                    return cur
+            return None
+
+        vcalls = model.calls_to(f.module, f.node, 'validate_announce', 'validate_announce_nlri')
+        for c in inst:
+            n_inst += 1
+            li = loop_of(c)
+            okv = False
+            for vc in vcalls:
+                lv = loop_of(vc)
+                # the check runs over the same collection, on the loop variable, before the installation
+                if li is not None and lv is not None and norm(lv.iter) == norm(li.iter) and vc.args and norm(vc.args[0]) == norm(lv.target) and (vc.lineno, vc.col_offset) < (c.lineno, c.col_offset):
+                    okv = True
+            run.check(
+                okv,
+                f.qualname,
+                'routes are validated before %s' % norm(c)[:50],
+                f.loc(c),
+                'the handler installs what parsed without the shared validity check (validate_announce): a definition the encoder can not '
+                'send (a VPLS or labelled route without next hop) is answered done and raises ValueError when the UPDATE is built',
+            )
+    if n_inst < 6:
+        run.cannot('only %d installing API handlers found' % n_inst)
+    # the parse-time check asks for a next hop exactly where the encoder needs one: every family but FlowSpec
+    vn = model.func('exabgp.bgp.message.update.collection.validate_announce_nlri')
+    run.analysed(vn)
+    safi_cls = model.classes.get('exabgp.protocol.family.SAFI')
+    nh_ret = [r for r in walk_no_nested(vn.node) if isinstance(r, ast.Return) and r.value is not None and 'nexthop' in norm(r.value).lower() and not isinstance(r.value, ast.Constant)]
+    if safi_cls is None or len(nh_ret) != 1:
+        run.cannot('validate_announce_nlri: the "requires nexthop" return was not found')
+    else:
+        pnames = [a.arg for a in vn.node.args.args]
+        codes = {}
+        for st in safi_cls.node.body:
+            if isinstance(st, ast.AnnAssign) and isinstance(st.target, ast.Name) and st.target.id.isupper() and isinstance(st.value, ast.Constant) and isinstance(st.value.value, int):
+                codes[st.target.id] = st.value.value
+        # the singletons: `SAFI.unicast = SAFI.from_int(SAFI.UNICAST)` at module level of protocol/family.py
+        fam = safi_cls.module
+        singles: dict[str, dict[str, int]] = {'SAFI': {}, 'AFI': {}}
+        for st in fam.tree.body:
+            if isinstance(st, ast.Assign) and isinstance(st.targets[0], ast.Attribute) and isinstance(st.targets[0].value, ast.Name) and st.targets[0].value.id in singles and isinstance(st.value, ast.Call) and st.value.args:
+                v = folder.fold(st.value.args[0], fam, None)
+                if isinstance(v, int):
+                    singles[st.targets[0].value.id][st.targets[0].attr] = v
+        und = singles['AFI'].get('undefined', UNKNOWN)
+        refused, unknown = set(), set()
+        vnl = Loc(model, vn)
+        for nm, code in sorted(codes.items()):
+            env = {pnames[0]: {'safi': code}, pnames[1]: {'afi': und}, 'SAFI': dict(singles['SAFI']), 'AFI': dict(singles['AFI'])}
+            verdict = True
+            for t_, pol in flat_guards(vn.node, nh_ret[0]):
+                try:
+                    t_ = ast.parse(vnl.expand(t_), mode='eval').body  # locals such as `safi = nlri.safi` replaced by their definition
+                except SyntaxError:
+                    pass
+                v = folder.fold(t_, vn.module, None, env)
+                if v is UNKNOWN:
+                    verdict = None
+                    break
+                if bool(v) != pol:
+                    verdict = False
+                    break
+            (refused if verdict else unknown if verdict is None else set()).add(nm)
+        need = set(codes) - {'FLOW_IP', 'FLOW_VPN', 'UNDEFINED'}
+        missing = sorted(need - refused - unknown)
+        if unknown:
+            run.cannot('validate_announce_nlri: next-hop test not evaluable for %s' % sorted(unknown))
+        run.check(not missing, vn.qualname, 'a missing next hop is refused for every family but FlowSpec (refused for %d SAFI)' % len(refused), vn.loc(nh_ret[0]), 'accepted without next hop: %s - UpdateCollection.messages() can encode none of them without one ("unexpected nlri definition"), so the definition is accepted and can not be sent' % missing)
     asn = model.func('exabgp.bgp.message.open.asn.ASN.from_string')
     run.analysed(asn)
     mx4 = folder.class_attr('exabgp.bgp.message.open.asn.ASN', 'MAX_4BYTE')
